@@ -158,6 +158,14 @@ def write_gvf(path, recs, source, family=None):
 
 def rand_small(rng, ref, tx, g, max_indel=4, snv_p=0.6, mnv_p=0.0):
     """A random small variant at gene position g of tx's gene (None if it would run off the gene)."""
+    v = _rand_small(rng, ref, tx, g, max_indel, snv_p, mnv_p)
+    # a record must lie inside the transcript's genomic range (parsers reject events that run past it)
+    if v is not None and not (tx.exons[0][0] <= v.gstart and v.gend <= tx.exons[-1][1]):
+        return None
+    return v
+
+
+def _rand_small(rng, ref, tx, g, max_indel=4, snv_p=0.6, mnv_p=0.0):
     gene = tx.gene
     gs = ref.gene_seq(gene)
     if not 0 <= g < len(gs):
